@@ -256,3 +256,47 @@ Proof.
   - apply C03_roundtrip; [exact Na | exact Nb | exact Nn | reflexivity | reflexivity].
 Qed.
 Print Assumptions C03_main_theorem_applies.
+
+(* ---- the Go algorithm itself (CreateImpl.v): matchesValue / matchesArray / getDiff modelled statement by
+   statement over Go maps (an OObj whose names are distinct; iteration order = list order) ---- *)
+From JP Require CreateImpl.
+
+(* matchesValue is structural equality (Go ranges over its second argument: no hypothesis this way round) *)
+Theorem C03_go_matchesValue_swap : forall b a, CreateImpl.matches_value_go a b = jeq b a.
+Proof. exact CreateImpl.matches_value_go_swap. Qed.
+Print Assumptions C03_go_matchesValue_swap.
+
+Theorem C03_go_matchesValue : forall a b,
+  onodup a = true -> onodup b = true -> CreateImpl.matches_value_go a b = jeq a b.
+Proof. exact CreateImpl.matches_value_go_jeq. Qed.
+Print Assumptions C03_go_matchesValue.
+
+(* getDiff computes exactly the reference difference, member order included *)
+Theorem C03_go_getDiff_is_diff : forall am bm,
+  onodup (OObj am) = true -> onodup (OObj bm) = true ->
+  CreateImpl.get_diff_go (OObj am) (OObj bm) = CreateImpl.GoMap (members_of (diff (OObj am) (OObj bm))).
+Proof. exact CreateImpl.get_diff_go_diff. Qed.
+Print Assumptions C03_go_getDiff_is_diff.
+
+(* ... and for any iteration order of the Go maps, at any depth, the same value *)
+Theorem C03_go_getDiff_any_order : forall a a' b b',
+  MergeOrder.operm a a' -> MergeOrder.operm b b' -> onodup a = true -> onodup b = true ->
+  is_obj a = true -> is_obj b = true ->
+  exists ms, CreateImpl.get_diff_go a' b' = CreateImpl.GoMap ms /\ onodup (OObj ms) = true /\
+             jeq (diff a b) (OObj ms) = true.
+Proof. exact CreateImpl.get_diff_go_any_order. Qed.
+Print Assumptions C03_go_getDiff_any_order.
+
+(* the panic branches of getDiff (default: of the type switch, failed type assertions) are dead on decoded JSON *)
+Theorem C03_go_getDiff_never_panics : forall am bm,
+  CreateImpl.get_diff_go (OObj am) (OObj bm) <> CreateImpl.GoPanic.
+Proof. exact CreateImpl.get_diff_go_no_panic. Qed.
+Print Assumptions C03_go_getDiff_never_panics.
+
+(* CreateMergePatch built from the Go-shaped functions is the model all theorems above are about *)
+Theorem C03_go_model_is_model : forall a b,
+  (forall ta, parse a = Some ta -> tnodup ta = true) ->
+  (forall tb, parse b = Some tb -> tnodup tb = true) ->
+  CreateImpl.api_create_go a b = Some (api_create a b).
+Proof. exact CreateImpl.api_create_go_eq. Qed.
+Print Assumptions C03_go_model_is_model.
